@@ -228,7 +228,6 @@ func (r *e1run) checkStep() {
 	k := len(r.steps) - 1
 	st := r.steps[k]
 	m := r.mi.m
-	mp := r.maps()
 	nseg := len(r.model.cuts)
 	msn0 := r.msn0()
 
@@ -237,6 +236,7 @@ func (r *e1run) checkStep() {
 		if st.avail {
 			for si, po := range st.streams {
 				if po.mp != nil {
+					r.recordListing(si, k)
 					r.checkC04(si, k)
 				}
 			}
@@ -276,30 +276,7 @@ func (r *e1run) checkStep() {
 		// (po.libErr - the library's own decoder rejecting the playlist - is not a violation of C15, whose yardstick is the
 		// independent grammar: e.g. a 33 ms segment forced by a parameter change gives EXT-X-TARGETDURATION:0, which the
 		// grammar allows and the library's decoder refuses)
-		pl := po.mp
-		// ---- record listing ----
-		for i, seg := range pl.Segments {
-			msn := pl.MediaSequence + i
-			cu := canon(stripQuery(seg.URI))
-			info := fmt.Sprintf("%s|%s|%v", cu, seg.DurationText, seg.Gap)
-			if old, ok := mp.msnInfo[si][msn]; ok && old != info {
-				r.add("C04", "msn-changed", "stream %s: media sequence number %d denoted %s and now %s (write %d)", s.id, msn, old, info, st.write)
-			}
-			mp.msnInfo[si][msn] = info
-			if !seg.Gap {
-				mp.segByMSN[si][msn] = cu
-				if nm := segNumRe.FindStringSubmatch(cu); nm == nil || nm[1] != strconv.Itoa(msn) {
-					r.add("C04", "uri-number-vs-msn", "stream %s: segment %s is listed at media sequence number %d", s.id, cu, msn)
-				}
-				if len(seg.Parts) > len(mp.partsOf[cu]) {
-					var ps []string
-					for _, p := range seg.Parts {
-						ps = append(ps, canon(stripQuery(p.URI)))
-					}
-					mp.partsOf[cu] = ps
-				}
-			}
-		}
+		r.recordListing(si, k)
 		r.checkC04(si, k)
 		r.checkC03(si, k)
 		r.checkC18Listing(si, k)
@@ -309,6 +286,37 @@ func (r *e1run) checkStep() {
 	r.checkInit(k)
 	r.checkC18Retention(k)
 	r.checkC16(k)
+}
+
+// recordListing notes which segment every listed media sequence number denotes and checks the clauses of C04 that
+// relate a number to a segment (these hold whatever the writes were, also after a failed Write).
+func (r *e1run) recordListing(si, k int) {
+	st := r.steps[k]
+	s := r.mi.m.streams[si]
+	mp := r.maps()
+	pl := st.streams[si].mp
+	for i, seg := range pl.Segments {
+		msn := pl.MediaSequence + i
+		cu := canon(stripQuery(seg.URI))
+		info := fmt.Sprintf("%s|%s|%v", cu, seg.DurationText, seg.Gap)
+		if old, ok := mp.msnInfo[si][msn]; ok && old != info {
+			r.add("C04", "msn-changed", "stream %s: media sequence number %d denoted %s and now %s (write %d)", s.id, msn, old, info, st.write)
+		}
+		mp.msnInfo[si][msn] = info
+		if !seg.Gap {
+			mp.segByMSN[si][msn] = cu
+			if nm := segNumRe.FindStringSubmatch(cu); nm == nil || nm[1] != strconv.Itoa(msn) {
+				r.add("C04", "uri-number-vs-msn", "stream %s: segment %s is listed at media sequence number %d", s.id, cu, msn)
+			}
+			if len(seg.Parts) > len(mp.partsOf[cu]) {
+				var ps []string
+				for _, p := range seg.Parts {
+					ps = append(ps, canon(stripQuery(p.URI)))
+				}
+				mp.partsOf[cu] = ps
+			}
+		}
+	}
 }
 
 func (r *e1run) opsString() string {
